@@ -933,6 +933,82 @@ w_nbit_read(const char *fn)
     CK(SDend(sd));
 }
 
+static void
+w_sd_meta(const char *fn)
+{
+    int32 sd = SDstart(fn, DFACC_CREATE);
+    if (sd == FAIL) {
+        nfail++;
+        return;
+    }
+    int32   dims[2] = {6, 5}, st[2] = {0, 0};
+    float32 sc[6]   = {0, 1, 2, 3, 4, 5};
+    CK(SDsetattr(sd, "glob", DFNT_CHAR8, 5, "hello"));
+    int32 sds = SDcreate(sd, "var", DFNT_INT32, 2, dims);
+    if (sds == FAIL)
+        nfail++;
+    else {
+        CK(SDwritedata(sds, st, NULL, dims, big));
+        CK(SDsetattr(sds, "units", DFNT_CHAR8, 2, "mm"));
+        int32 dim = SDgetdimid(sds, 0);
+        if (dim == FAIL)
+            nfail++;
+        else {
+            CK(SDsetdimname(dim, "y"));
+            CK(SDsetdimscale(dim, 6, DFNT_FLOAT32, sc));
+        }
+        CK(SDendaccess(sds));
+    }
+    CK(SDend(sd));
+}
+
+static void
+w_sd_agent(const char *fn)
+{
+    /* workload of the round-2 seeding agent's exploration harness, reproduced to get the injection stacks */
+    int32   sd, sds, dim;
+    int32   dims[2] = {6, 5}, start[2] = {0, 0}, edges[2] = {6, 5};
+    int32   data[30];
+    float32 sc[6];
+    for (int i = 0; i < 30; i++)
+        data[i] = i * 5;
+    for (int i = 0; i < 6; i++)
+        sc[i] = (float32)i;
+    sd = SDstart(fn, DFACC_CREATE);
+    if (sd == FAIL) {
+        nfail++;
+        return;
+    }
+    CK(SDsetattr(sd, "glob", DFNT_CHAR8, 5, "hello"));
+    sds = SDcreate(sd, "var", DFNT_INT32, 2, dims);
+    if (sds == FAIL)
+        nfail++;
+    else {
+        CK(SDwritedata(sds, start, NULL, edges, data));
+        CK(SDsetattr(sds, "units", DFNT_CHAR8, 2, "mm"));
+        dim = SDgetdimid(sds, 0);
+        if (dim == FAIL)
+            nfail++;
+        else {
+            CK(SDsetdimname(dim, "y"));
+            CK(SDsetdimscale(dim, 6, DFNT_FLOAT32, sc));
+        }
+        CK(SDendaccess(sds));
+    }
+    dims[0] = SD_UNLIMITED;
+    sds     = SDcreate(sd, "rec", DFNT_INT32, 2, dims);
+    if (sds == FAIL)
+        nfail++;
+    else {
+        edges[0] = 3;
+        CK(SDwritedata(sds, start, NULL, edges, data));
+        start[0] = 3;
+        CK(SDwritedata(sds, start, NULL, edges, data));
+        CK(SDendaccess(sds));
+    }
+    CK(SDend(sd));
+}
+
 static struct {
     const char *name;
     void (*fn)(const char *);
@@ -941,7 +1017,7 @@ static struct {
          {"sd_unlim", w_sd_unlimited}, {"gr", w_gr0},         {"gr_deflate", w_gr1}, {"gr_rle", w_gr2},
          {"ext", w_ext},        {"an", w_an},                 {"bits", w_bits2},
          {"sd_nbit_big", w_sd_nbit_big}, {"gr_two", w_gr_two}, {"vs_ext", w_vs_ext}, 
-         {"sd_clobber", w_sd_clobber}, {"sd_update", w_sd_update}, {"read_all", w_read_all}, {"oldatt", w_oldatt}, {"bits_rw", w_bits_rw}, {"ext_dir", w_ext_dir}, {"gr_map", w_gr_map}, {"flush", w_flush}, {"nbit_read", w_nbit_read}};
+         {"sd_clobber", w_sd_clobber}, {"sd_update", w_sd_update}, {"read_all", w_read_all}, {"oldatt", w_oldatt}, {"bits_rw", w_bits_rw}, {"ext_dir", w_ext_dir}, {"gr_map", w_gr_map}, {"flush", w_flush}, {"nbit_read", w_nbit_read}, {"sd_meta", w_sd_meta}, {"sd_agent", w_sd_agent}};
 
 static unsigned long
 hash_file(const char *fn, long *len)
